@@ -45,6 +45,7 @@ def run(ctx: Ctx) -> None:
 
 
 KNOCKOUTS = [
+    Knockout("measurement-renormalises", "graphiq/backends/density_matrix/state.py", sub_once("probs[outcome] / np.sum(probs)", "probs[outcome]"), "weight.preserve", "renormalises a sub-normalised state", on_fixed_only=True),
     Knockout("noise-not-restored", CBASE, sub_nth("                            op.noise = noise_copy\n", "", 0), "effect.stale-swap-read", "not restored"),
     Knockout("mixture-getter-copies", "graphiq/backends/stabilizer/state.py", sub_once("        return self._mixture\n\n    @mixture.setter", "        return self._mixture.copy()\n\n    @mixture.setter"), "effect.getter-alias", "getter returns a copy"),
     Knockout("weight-renormalise-channel", "graphiq/backends/density_matrix/state.py", sub_once("            self._data = dmf.hermitianize(tmp_state)", "            self._data = dmf.hermitianize(tmp_state)\n            self._data = self._data / np.trace(self._data)"), "weight.preserve", "apply_channel"),
